@@ -15,8 +15,8 @@ from vf.util import Rng, split_seeds, spec_seeds, replay_spec, short
 ID = 'C18'
 LEVEL = 'exploration'
 RULE = ('seeded operation sequences (set/overwrite/delete/merge_in/update/pop/iterate) on containers with capacity '
-        '0-8/None and value limits, resource merge chains with schema-url mixes, env matrices for Resource.create, '
-        'end-to-end resource on the wire with generated plugin resource providers; non-trivial = the sequence '
+        '0-8/None and value limits (values incl. enum members and str subclasses, merge_in of another attribute container), resource merge chains with schema-url mixes, env matrices for Resource.create, '
+        'end-to-end resource on the wire with generated plugin resource providers, half of the sessions restarting the agent under a changed environment; non-trivial = the sequence '
         'evicted, rejected, truncated or overwrote at least once / the chain had an overlapping key / the wire '
         'resource was observed; distinct by canonical op sequence')
 ASSUMPTIONS = ['values are drawn from the classes _clean_attribute distinguishes; str subclasses and exotic Sequence '
